@@ -64,8 +64,8 @@ CONFIG = {
             "quick": {"shards": 4, "n": 150, "scale": 20, "arg": 12, "max_size": 100},
             "thorough": {"shards": 6, "n": 3000, "scale": 30, "arg": 20, "max_size": 100}},
     "C11": {"adapters": False, "variants": ["asan", "tsan"],
-            "quick": {"shards": 4, "n": 250, "scale": 2, "arg": 0, "max_size": 60},
-            "thorough": {"shards": 6, "n": 3000, "scale": 2, "arg": 0, "max_size": 80}},
+            "quick": {"shards": 4, "n": 250, "scale": 5, "arg": 0, "max_size": 100},
+            "thorough": {"shards": 6, "n": 3000, "scale": 5, "arg": 0, "max_size": 100}},
     "C20": {"enum": True, "quick": {"shards": 8, "n": 3000, "scale": 4, "arg": 0}, "thorough": {"shards": 16, "n": 30000, "scale": 4, "arg": 0}},
     "C03": {"quick": {"shards": 8, "n": 4000, "scale": 20, "arg": 10}, "thorough": {"shards": 16, "n": 25000, "scale": 40, "arg": 24}},
     "C04": {"quick": {"shards": 8, "n": 5000, "scale": 20, "arg": 10}, "thorough": {"shards": 16, "n": 30000, "scale": 40, "arg": 24}},
